@@ -32,8 +32,8 @@ import (
 	"github.com/safing/portbase/api"
 	"github.com/safing/portbase/config"
 	"github.com/safing/portbase/database"
-	"github.com/safing/portbase/database/record"
 	_ "github.com/safing/portbase/database/dbmodule"
+	"github.com/safing/portbase/database/record"
 	"github.com/safing/portbase/dataroot"
 	"github.com/safing/portbase/log"
 	"github.com/safing/portbase/modules"
@@ -43,9 +43,9 @@ import (
 )
 
 const (
-	cookieName    = "Portmaster-API-Token"
-	bridgeAddr    = "websocket-bridge"
-	waitTimeout   = 30 * time.Second
+	cookieName     = "Portmaster-API-Token"
+	bridgeAddr     = "websocket-bridge"
+	waitTimeout    = 30 * time.Second
 	expPlaceholder = "@EXP@"
 )
 
@@ -147,8 +147,8 @@ func permFromVars(r *http.Request, name string) api.Permission {
 // dynHandler declares the permissions given in the URL.
 type dynHandler struct{}
 
-func (dynHandler) ReadPermission(r *http.Request) api.Permission  { return permFromVars(r, "r") }
-func (dynHandler) WritePermission(r *http.Request) api.Permission { return permFromVars(r, "w") }
+func (dynHandler) ReadPermission(r *http.Request) api.Permission    { return permFromVars(r, "r") }
+func (dynHandler) WritePermission(r *http.Request) api.Permission   { return permFromVars(r, "w") }
 func (dynHandler) ServeHTTP(w http.ResponseWriter, r *http.Request) { theWorld.handlerRan(w, r) }
 
 // dynModHandler additionally belongs to a module that is not started.
@@ -562,6 +562,40 @@ func (e *exec) Do(line string) string {
 			return "bad-op"
 		}
 		return e.doReq(f[1:])
+	case "bridgeraw":
+		// an arbitrary key read through the bridge database (implementation only: scope of the bridge)
+		if len(f) != 2 {
+			return "bad-op"
+		}
+		key, ok := unhexField(f[1])
+		if !ok {
+			return "bad-op"
+		}
+		w := e.w
+		w.mu.Lock()
+		w.curAuth, w.authCalled, w.ran, w.ranTok = "N", false, false, ""
+		w.mu.Unlock()
+		code, _ := e.dbRequest("GET", key)
+		if code < 0 {
+			return "HANG bridged request not answered"
+		}
+		w.mu.Lock()
+		ran, ranTok := w.ran, w.ranTok
+		w.mu.Unlock()
+		if ran {
+			return "br inv " + ranTok
+		}
+		return fmt.Sprintf("br st %d", code)
+	case "raw":
+		// raw bytes on a fresh TCP connection to the server (implementation only: totality)
+		if len(f) != 2 {
+			return "bad-op"
+		}
+		b, ok := unhexField(f[1])
+		if !ok {
+			return "bad-op"
+		}
+		return e.rawTCP(b)
 	}
 	return "bad-op"
 }
@@ -911,6 +945,29 @@ func (e *exec) tcpRequest(method, path, host, origin, acrm, authz, cookie string
 	defer resp.Body.Close()
 	rb, _ := io.ReadAll(io.LimitReader(resp.Body, 1<<20))
 	return resp.StatusCode, resp.Header, rb, nil
+}
+
+// rawTCP writes arbitrary bytes and reports the status code of the first response, if any.
+func (e *exec) rawTCP(b string) string {
+	conn, err := net.DialTimeout("tcp", e.w.tcp.Listener.Addr().String(), waitTimeout)
+	if err != nil {
+		return "TCP-ERROR " + err.Error()
+	}
+	defer conn.Close()
+	_ = conn.SetDeadline(time.Now().Add(2 * time.Second))
+	if _, err := conn.Write([]byte(b)); err != nil {
+		return "raw write-failed"
+	}
+	if tc, ok := conn.(*net.TCPConn); ok {
+		_ = tc.CloseWrite()
+	}
+	resp, err := http.ReadResponse(bufio.NewReader(conn), nil)
+	if err != nil {
+		return "raw no-response"
+	}
+	resp.Body.Close()
+	e.r.Count(fmt.Sprintf("raw-tcp:status-%d", resp.StatusCode))
+	return fmt.Sprintf("raw %d", resp.StatusCode)
 }
 
 var bridgeCode = regexp.MustCompile(`unexpected error code ([0-9]+)`)
